@@ -10,6 +10,7 @@
 (*                             O1 remove_by_height (orphan-pool lock)      *)
 (*                             OH / OK / OB = H / K / B for each orphan    *)
 (*   process_block_header(b) = HH header section                           *)
+(*   compact()               = C  one section (or nothing when not due)    *)
 (*   get_unspent(c), head()  = one atomic read of committed state          *)
 (* Sections of different threads interleave arbitrarily; each section is   *)
 (* atomic because it holds both write locks from start to commit.  The     *)
@@ -21,7 +22,7 @@ EXTENDS Chain
 
 CONSTANTS TreeIn,      \* the block tree (function id -> block record), fixed for a run
           Threads,     \* set of thread ids
-          Prog,        \* [Threads -> Seq([k: "ProcessBlock"|"ProcessHeader", b: id])]
+          Prog,        \* [Threads -> Seq([k: "ProcessBlock"|"ProcessHeader"|"Compact", b: id])]
           MaxOrphans   \* capacity of the orphan pool (chain.rs MAX_ORPHAN_SIZE = 200)
 
 VARIABLES th,          \* per-thread control state
@@ -97,6 +98,29 @@ SecOH(t) == /\ th[t].st = "OH"
 SecOB(t) == /\ th[t].st = "OB"
             /\ LET r == BodyStage(n, CurOrphan(t)) IN NextOrphan(t, Ok(r.res), r.nd)
 
+\* Chain::compact(): (1) without a lock, looks at head and tail, returns at once unless head >= tail + horizon + 60,
+\* and picks the archive header for the head it saw (StepCD; the archive height stays in th[t].b); (2) ONE section
+\* under header_pmmr.read + txhashset.write + batch that rewrites the pruned MMR files up to the horizon of the head
+\* it finds THEN (the head may have been reorganised to a lower block meanwhile), removes the full blocks below
+\* min(archive height of step 1, that horizon) and moves the tail there (SecC).  As Chain.tla's CompactNode: a stutter
+\* on everything a reader observes except the stored bodies.
+ArchHeight(H) == SatSub(H, SyncThreshold) - (SatSub(H, SyncThreshold) % ArchiveInterval)
+StepCD(t) == /\ th[t].st = "idle" /\ HasOp(t) /\ Op(t).k = "Compact"
+             /\ IF CanCompact(n)
+                THEN /\ n' = n /\ UNCHANGED results
+                     /\ th' = [th EXCEPT ![t].st = "C", ![t].b = ArchHeight(Height(n.head))]
+                ELSE Finish(t, "ok", n)
+SecC(t) == /\ th[t].st = "C"
+           /\ LET H == Height(n.head)
+                  hor == SatSub(H, Horizon)
+                  cutoff == IF th[t].b < hor THEN th[t].b ELSE hor
+              IN Finish(t, "ok",
+                        IF cutoff = 0 THEN [n EXCEPT !.hz = hor]
+                        ELSE [n EXCEPT !.tail = cutoff, !.hz = hor,
+                                       !.bodies = {b \in @ : Height(b) >= cutoff},
+                                       !.sums = {b \in @ : Height(b) >= cutoff},
+                                       !.spentIdx = [x \in {y \in DOMAIN n.spentIdx : Height(y) >= cutoff} |-> n.spentIdx[x]]])
+
 \* --- steps outside the chain locks (not visible in the lock log) ---
 \* check_orphan reads the head and the parent body (two store reads) and only then adds the block
 \* to the orphan pool: the decision (StepK) and the insertion (StepKA) are separate steps.  After
@@ -113,7 +137,13 @@ StepK(t) == /\ th[t].st = "K"
 TopHeight(sq) == CHOOSE h \in {Height(sq[i]) : i \in 1..Len(sq)} : \A j \in 1..Len(sq) : Height(sq[j]) <= h
 RECURSIVE EvictAhead(_)
 EvictAhead(sq) == LET s2 == RemoveAt(sq, TopHeight(sq)) IN IF Len(s2) < MaxOrphans THEN s2 ELSE EvictAhead(s2)
-PoolAdd(sq, b) == LET a == IF \E i \in 1..Len(sq) : sq[i] = b THEN sq ELSE Append(sq, b)
+\* The pool is kept ordered by height, insertion order within a height (the real pool is a map plus a height index
+\* holding the hashes of each height in insertion order): everything the model reads from it - TakeAt, RemoveAt,
+\* membership, size, the eviction - depends on that order only, and insertions at different heights by different
+\* threads commute instead of producing as many states as there are arrival orders.
+InsertByHeight(sq, b) == LET k == Cardinality({i \in 1..Len(sq) : Height(sq[i]) <= Height(b)})
+                         IN SubSeq(sq, 1, k) \o <<b>> \o SubSeq(sq, k + 1, Len(sq))
+PoolAdd(sq, b) == LET a == IF \E i \in 1..Len(sq) : sq[i] = b THEN sq ELSE InsertByHeight(sq, b)
                   IN IF Len(a) > MaxOrphans THEN EvictAhead(a) ELSE a
 AddOrphan(nd, b) == [nd EXCEPT !.orph = PoolAdd(@, b)]
 StepKA(t) == /\ th[t].st = "KA"
@@ -146,8 +176,8 @@ StepOKA(t) == /\ th[t].st = "OKA"
                          /\ th' = [th EXCEPT ![t].st = "O1", ![t].fr = Append(@, NewFrame(Height(x)))]
                     ELSE NextOrphan(t, FALSE, nd)
 
-Section(t) == SecHH(t) \/ SecH(t) \/ SecB(t) \/ SecOH(t) \/ SecOB(t)
-Silent(t) == StepK(t) \/ StepKA(t) \/ StepO1(t) \/ StepOK(t) \/ StepOKA(t)
+Section(t) == SecHH(t) \/ SecH(t) \/ SecB(t) \/ SecOH(t) \/ SecOB(t) \/ SecC(t)
+Silent(t) == StepK(t) \/ StepKA(t) \/ StepO1(t) \/ StepOK(t) \/ StepOKA(t) \/ StepCD(t)
 
 CNext == \E t \in Threads : (Section(t) \/ Silent(t)) /\ UNCHANGED <<tree, ndel, last>>
 CSpec == CInit /\ [][CNext]_cvars
